@@ -117,10 +117,14 @@ func CallURL(url, method string, params interface{}, out interface{}) (int, erro
 
 // APIAction identifies one history action returned by get-transactions.
 type APIAction struct {
-	Hash   string `json:"hash"`
-	Idx    int    `json:"idx"`
-	Exec   int64  `json:"exec"`
-	Height int64  `json:"height"`
+	Hash    string    `json:"hash"`
+	Idx     int       `json:"idx"`
+	Exec    int64     `json:"exec"`
+	Height  int64     `json:"height"`
+	FromAmt []int     `json:"fromAmt"`
+	ToAmt   []int     `json:"toAmt"`
+	Neg     bool      `json:"neg"` // an amount of the action is negative (zeroing rows): amounts not compared
+	Outs    []APIPair `json:"outs"`
 }
 
 // APIPage is one page of a get-transactions query.
@@ -206,6 +210,12 @@ func (r *Runner) pages(by, key string, param map[string]interface{}) APIQuery {
 				TxIndex  int    `json:"txindex"`
 				Executed int64  `json:"executed"`
 				Height   int64  `json:"height"`
+				FromAmt  int64  `json:"fromamount"`
+				ToAmt    int64  `json:"toamount"`
+				Outputs  []struct {
+					Address string `json:"address"`
+					Amount  int64  `json:"amount"`
+				} `json:"outputs"`
 			} `json:"actions"`
 			Count      int `json:"count"`
 			NextOffset int `json:"nextoffset"`
@@ -218,7 +228,19 @@ func (r *Runner) pages(by, key string, param map[string]interface{}) APIQuery {
 		if code == 0 && err == nil {
 			pg.Count, pg.Next = res.Count, res.NextOffset
 			for _, a := range res.Actions {
-				pg.Actions = append(pg.Actions, APIAction{Hash: a.Hash, Idx: a.TxIndex, Exec: a.Executed, Height: a.Height})
+				act := APIAction{Hash: a.Hash, Idx: a.TxIndex, Exec: a.Executed, Height: a.Height, Outs: []APIPair{},
+					Neg: a.FromAmt < 0 || a.ToAmt < 0, FromAmt: gen.Limbs(uint64(a.FromAmt)), ToAmt: gen.Limbs(uint64(a.ToAmt))}
+				for _, o := range a.Outputs {
+					name := "?" + o.Address
+					if fa, err := factom.NewFAAddress(o.Address); err == nil {
+						name = r.Chain.Keys.Name(fa)
+					}
+					if o.Amount < 0 {
+						act.Neg = true
+					}
+					act.Outs = append(act.Outs, APIPair{A: name, Amt: gen.Limbs(uint64(o.Amount))})
+				}
+				pg.Actions = append(pg.Actions, act)
 			}
 		}
 		q.Pages = append(q.Pages, pg)
